@@ -33,11 +33,12 @@ Definition model_lit_into_ty_arms : list arm :=
     ([(LPString, CPBytes)], FTrue);       (* 23 *)
     ([(LPMap, CPAdtStruct)], FDyn) ].     (* 24 *)
 
-(* the repair arc-field-default appends ONE arm, at the end (no index moves) *)
+(* the repairs arc-field-default and (where it is applied) string-at-bytesvec append their arms at the end (no index moves) *)
 Definition arc_into_arm : arm := ([(LPAny, CPArc)], FFalse).
+Definition strvec_into_arm : arm := ([(LPString, CPVec)], FFalse).
 Lemma lit_into_ty_arms_pinned :
-  lit_into_ty_arms = model_lit_into_ty_arms \/ lit_into_ty_arms = model_lit_into_ty_arms ++ [arc_into_arm].
-Proof. first [left; reflexivity | right; reflexivity]. Qed.
+  lit_into_ty_arms = model_lit_into_ty_arms ++ (if string_at_bytesvec_ok then [strvec_into_arm] else []) ++ [arc_into_arm].
+Proof. reflexivity. Qed.
 
 Lemma lit_as_rvalue_arms_pinned :
   lit_as_rvalue_arms = [ ([(LPMap, CPLazyStaticRef)], FFalse); ([(LPMap, CPMap)], FFalse); ([(LPMap, CPBTreeMap)], FFalse);
@@ -48,13 +49,13 @@ Proof. reflexivity. Qed.
 Definition model_ident_into_ty_arms : list (list (cpat * cpat) * flagk) :=
   [ ([(CPAny, CPAdtNewType)], FDyn); ([(CPStr, CPFastStr)], FTrue); ([(CPStr, CPString)], FFalse);
     ([(CPAdtEnum, CPI64); (CPAdtEnum, CPI32); (CPAdtEnum, CPI16); (CPAdtEnum, CPI8)], FTrue) ].
-Lemma ident_into_ty_arms_pinned :
-  ident_into_ty_arms = model_ident_into_ty_arms \/ ident_into_ty_arms = model_ident_into_ty_arms ++ [([(CPAny, CPArc)], FFalse)].
-Proof. first [left; reflexivity | right; reflexivity]. Qed.
-(* both functions have the Arc arm, or neither *)
-Lemma arc_arms_together :
-  arc_ok = Nat.ltb (4%nat) (length ident_into_ty_arms).
+Lemma ident_into_ty_arms_pinned : ident_into_ty_arms = model_ident_into_ty_arms ++ [([(CPAny, CPArc)], FFalse)].
 Proof. reflexivity. Qed.
+
+(* the repairs the general theorems below are stated for are in the source (each flag is regenerated from context.rs by
+   tools/extract_gen.py: this lemma, and with it every theorem of this file, stops compiling when one of them regenerates to false) *)
+Lemma flags_now : arc_ok = true /\ const_inline_present = true /\ double_sign_run_ok = true /\ double_exponent_ok = true.
+Proof. repeat split; reflexivity. Qed.
 
 Lemma lit_scalars_pinned :
   int_float_casts = [(CPF32, CPF32); (CPF64, CPF64); (CPOrderedF64, CPF64)] /\ int_bool_test = (true, 0) /\
@@ -266,33 +267,33 @@ Definition low_fields (rec : lit -> cty -> lres (gval * bool)) (dflt : rty -> lr
         LOk (match fst here with Some x => (lf_id f, x) :: fst rest | None => fst rest end, snd here && snd rest)
     end.
 
-Definition class_over (S : lschema) (v : lit) (s : list byte) : list lfield -> option pclass :=
+Definition class_over (S : lschema) (ccls : nat -> cty -> option pclass) (v : lit) (s : list byte) : list lfield -> option pclass :=
   fix over (fs : list lfield) : option pclass :=
     match fs with
     | [] => None
     | f :: fr =>
-        match (if bytes_eqb s (lf_name f) then pclass_into S true v (item_cty (lf_ty f)) else None) with
+        match (if bytes_eqb s (lf_name f) then pclass_into S ccls true v (item_cty (lf_ty f)) else None) with
         | Some c => Some c
         | None => over fr
         end
     end.
-Definition class_pairs (S : lschema) (fs : list lfield) : list (lit * lit) -> option pclass :=
+Definition class_pairs (S : lschema) (ccls : nat -> cty -> option pclass) (fs : list lfield) : list (lit * lit) -> option pclass :=
   fix go (m : list (lit * lit)) : option pclass :=
     match m with
     | [] => None
     | (k, v) :: r =>
-        match (match k with LString s => class_over S v s fs | _ => None end) with
+        match (match k with LString s => class_over S ccls v s fs | _ => None end) with
         | Some c => Some c
         | None => go r
         end
     end.
 
-Lemma class_over_in S v s fs f : class_over S v s fs = None -> In f fs -> bytes_eqb s (lf_name f) = true ->
-  pclass_into S true v (item_cty (lf_ty f)) = None.
+Lemma class_over_in S ccls v s fs f : class_over S ccls v s fs = None -> In f fs -> bytes_eqb s (lf_name f) = true ->
+  pclass_into S ccls true v (item_cty (lf_ty f)) = None.
 Proof.
   induction fs as [|g fr IH]; intros H Hin Hb; [destruct Hin|].
   cbn [class_over] in H. destruct Hin as [->|Hin].
-  - rewrite Hb in H. destruct (pclass_into S true v (item_cty (lf_ty f))); [discriminate|reflexivity].
+  - rewrite Hb in H. destruct (pclass_into S ccls true v (item_cty (lf_ty f))); [discriminate|reflexivity].
   - destruct (if bytes_eqb s (lf_name g) then _ else _); [discriminate|]. apply IH; assumption.
 Qed.
 (* ---------- typedef chains of a target (ident_into_ty) ---------- *)
@@ -329,18 +330,6 @@ Qed.
 Lemma rv_index_scalar en lk ck : lk <> LPList -> lk <> LPMap -> rv_index en lk ck = 7%nat.
 Proof. intros H1 H2. destruct en; [|reflexivity]. destruct lk; try congruence; destruct ck; reflexivity. Qed.
 
-(* ---------- the conditional repairs are invisible where the classes hold ---------- *)
-Lemma ident_noarc S it target v : is_arc_c (peel S (pfuel S) target) = false ->
-  ident_into_ty S it target v = ident_into_ty0 S it target v.
-Proof. intros H. unfold ident_into_ty. rewrite H, Bool.andb_false_r. reflexivity. Qed.
-
-Lemma ident_eq S it v : ident_into_ty S it it v = (let+ x := v in LOk (x, true)).
-Proof.
-  unfold ident_into_ty, ident_into_ty0. rewrite in_chain_refl.
-  destruct (arc_ok && is_arc_c (peel S (pfuel S) it)); [|reflexivity].
-  destruct (pfuel S + pfuel S)%nat; cbn [in_chain_a]; rewrite cty_eqb_refl; reflexivity.
-Qed.
-
 Lemma item_cty_not_container t : is_container_c (item_cty t) = false.
 Proof. destruct t; reflexivity. Qed.
 
@@ -352,42 +341,203 @@ Proof.
   rewrite E1. destruct double_sign_run_ok; [reflexivity|]. cbn [orb] in Hs. apply bytes_eqb_eq in Hs. exact Hs.
 Qed.
 
+
+(* ---------- the walk through NewType and Arc layers: model (tfin, chain_of) vs specification (sresolve) ---------- *)
+Lemma erase_unarc t : erase (unarc t) = erase t.
+Proof. induction t; cbn; auto. Qed.
+Lemma unarc_not_arc t a : unarc t <> RArc a.
+Proof. induction t; cbn; try discriminate; auto. Qed.
+Lemma rstrip_not_arc S f : forall t a, rstrip_n S f t <> RArc a.
+Proof.
+  induction f as [|f IH]; intros t a; cbn [rstrip_n]; [apply unarc_not_arc|].
+  destruct (unarc t) eqn:E; try discriminate.
+  - rewrite <- E. apply unarc_not_arc.
+  - destruct (item S n) as [[]|]; try discriminate. apply IH.
+Qed.
+Lemma sres_rstrip S f : forall t, sresolve_n S f (erase t) = erase (rstrip_n S f t).
+Proof.
+  induction f as [|f IH]; intros t; cbn [sresolve_n rstrip_n]; [symmetry; apply erase_unarc|].
+  rewrite <- (erase_unarc t). destruct (unarc t) eqn:E; try reflexivity.
+  - exfalso. exact (unarc_not_arc _ _ E).
+  - cbn [erase]. unfold sitem, item. destruct (nth_error (ls_items S) n) as [[]|]; auto.
+Qed.
+
+Lemma unarc_c_item t : unarc_c (item_cty t) = item_cty (unarc t).
+Proof. induction t; cbn; auto. Qed.
+
+Lemma peela_item S f : forall t, peela S f (item_cty t) = item_cty (rstrip_n S f t).
+Proof.
+  induction f as [|f IH]; intros t; cbn [peela rstrip_n]; rewrite unarc_c_item; [reflexivity|].
+  destruct (unarc t); try reflexivity. cbn [item_cty]. destruct (item S n) as [[]|]; auto.
+Qed.
+
+(* a resolved type stays what it is with more fuel *)
+Lemma sres_more S f k : forall x, unresolved S (sresolve_n S f x) = false -> sresolve_n S (f + k) x = sresolve_n S f x.
+Proof.
+  induction f as [|f IH]; intros x H.
+  - cbn [sresolve_n plus] in *. apply sres_term. exact H.
+  - cbn [plus]. destruct x; try reflexivity. cbn [sresolve_n] in *.
+    destruct (sitem S n) as [[]|]; try reflexivity. apply IH. exact H.
+Qed.
+
+Lemma rstrip_more S f k : forall t, unresolved S (erase (rstrip_n S f t)) = false -> rstrip_n S (f + k) t = rstrip_n S f t.
+Proof.
+  induction f as [|f IH]; intros t H.
+  - cbn [rstrip_n plus] in *. destruct k; [reflexivity|]. cbn [rstrip_n].
+    destruct (unarc t) eqn:E; try reflexivity. cbn [erase unresolved] in H. unfold sitem in H. unfold item.
+    destruct (nth_error (ls_items S) n) as [[]|]; try reflexivity; discriminate.
+  - cbn [plus rstrip_n] in *. destruct (unarc t); try reflexivity.
+    destruct (item S n) as [[]|]; try reflexivity. apply IH. exact H.
+Qed.
+
+(* without an Arc at the end of the typedef chain there is none on it *)
+Lemma unarc_id t : is_arc_c (item_cty t) = false -> unarc t = t.
+Proof. destruct t; cbn; try reflexivity; discriminate. Qed.
+Lemma rres_rstrip S f : forall t, is_arc_c (item_cty (rres_n S f t)) = false -> rstrip_n S f t = rres_n S f t.
+Proof.
+  induction f as [|f IH]; intros t H; cbn [rstrip_n rres_n] in *; [apply unarc_id; exact H|].
+  destruct t; try reflexivity; try discriminate.
+  cbn [unarc]. destruct (item S n) as [[]|]; try reflexivity. apply IH. exact H.
+Qed.
+
+(* the end of the walk is the field type of the resolved rir type *)
+Lemma tfin_item S t : arc_ok = true -> unresolved S (sresolve S (erase t)) = false ->
+  tfin S (item_cty t) = item_cty (rstrip S t).
+Proof.
+  intros Harc Hu. unfold tfin, fa_of. rewrite Harc. cbn [andb].
+  destruct (is_arc_c (peel S (pfuel S) (item_cty t))) eqn:Ea.
+  - rewrite peela_item. f_equal. apply rstrip_more. unfold sresolve in Hu. fold (pfuel S) in Hu.
+    rewrite sres_rstrip in Hu. exact Hu.
+  - rewrite peel_item in *. f_equal. symmetry. apply rres_rstrip. exact Ea.
+Qed.
+
+Lemma item_cty_inj a : forall b, item_cty a = item_cty b -> a = b.
+Proof.
+  induction a; intros b H; destruct b; cbn in H; try discriminate; try reflexivity;
+    try (injection H as H; f_equal; auto; fail).
+  all: try (injection H as H; exfalso; first [exact (item_cty_not_u8 _ (eq_sym H)) | exact (item_cty_not_u8 _ H)]).
+  all: injection H as H1 H2; f_equal; auto.
+Qed.
+
+(* a type found on the walk of a field type is a field type, and the target resolves through it *)
+Lemma in_chain_a_sres S f : forall it t b, in_chain_a S f it (item_cty t) = Some b ->
+  exists u k, it = item_cty u /\ forall g, sresolve_n S (k + g) (erase t) = sresolve_n S g (erase u).
+Proof.
+  induction f as [|f IH]; intros it t b H; cbn [in_chain_a] in H.
+  - destruct (cty_eqb it (item_cty t)) eqn:E; [|discriminate]. apply cty_eqb_eq in E. exists t, O. split; [exact E|reflexivity].
+  - destruct (cty_eqb it (item_cty t)) eqn:E.
+    + apply cty_eqb_eq in E. exists t, O. split; [exact E|reflexivity].
+    + destruct t; cbn [item_cty] in H; try discriminate.
+      * (* Arc *)
+        destruct (in_chain_a S f it (item_cty t)) as [b'|] eqn:E2; [|discriminate].
+        destruct (IH _ _ _ E2) as (u & k & Hu & Hk). exists u, k. split; [exact Hu|]. intros g. cbn [erase]. apply Hk.
+      * (* Path *)
+        destruct (item S n) as [[| | |a]|] eqn:En; try discriminate.
+        destruct (IH _ _ _ H) as (u & k & Hu & Hk). exists u, (Datatypes.S k). split; [exact Hu|]. intros g.
+        cbn [plus erase sresolve_n]. unfold sitem. unfold item in En. rewrite En. apply Hk.
+Qed.
+
+Lemma in_chain_to_a S f : forall it ty, in_chain S f it ty = true -> in_chain_a S f it ty = Some false.
+Proof.
+  induction f as [|f IH]; intros it ty H; cbn [in_chain in_chain_a] in *.
+  - destruct (cty_eqb it ty); [reflexivity|]. destruct ty; discriminate.
+  - destruct (cty_eqb it ty); [reflexivity|]. cbn [orb] in H.
+    destruct ty; try discriminate. destruct (item S n) as [[]|]; try discriminate. apply IH. exact H.
+Qed.
+
+Lemma chain_of_sres S it t b : chain_of S it (item_cty t) = Some b ->
+  exists u k, it = item_cty u /\ forall g, sresolve_n S (k + g) (erase t) = sresolve_n S g (erase u).
+Proof.
+  unfold chain_of. destruct (fa_of S (item_cty t)).
+  - apply in_chain_a_sres.
+  - destruct (in_chain S (pfuel S) it (item_cty t)) eqn:E; [|discriminate]. intros _.
+    exact (in_chain_a_sres S _ _ _ _ (in_chain_to_a S _ _ _ E)).
+Qed.
+
+(* ... so, once the target resolves, it resolves to what the type on its walk resolves to *)
+Lemma chain_resolves S it t b : chain_of S it (item_cty t) = Some b -> unresolved S (sresolve S (erase t)) = false ->
+  exists u, it = item_cty u /\ sresolve S (erase u) = sresolve S (erase t).
+Proof.
+  intros H Hu. destruct (chain_of_sres S it t b H) as (u & k & Ei & Hk). exists u. split; [exact Ei|].
+  unfold sresolve in *. rewrite <- Hk. rewrite Nat.add_comm. apply sres_more. exact Hu.
+Qed.
+
+Lemma chain_of_refl S ty : chain_of S ty ty <> None.
+Proof.
+  unfold chain_of. destruct (fa_of S ty).
+  - destruct (pfuel S + pfuel S)%nat; cbn [in_chain_a]; rewrite cty_eqb_refl; discriminate.
+  - rewrite in_chain_refl. discriminate.
+Qed.
+
+Lemma fa_of_str S : fa_of S CStr = false.
+Proof. unfold fa_of, pfuel. cbn [peel is_arc_c]. apply Bool.andb_false_r. Qed.
+Lemma tfin_str S : tfin S CStr = CStr.
+Proof. unfold tfin. rewrite fa_of_str. reflexivity. Qed.
+Lemma chain_of_str S it : chain_of S it CStr = if cty_eqb it CStr then Some false else None.
+Proof. unfold chain_of. rewrite fa_of_str. unfold pfuel. cbn [in_chain]. rewrite Bool.orb_false_r. reflexivity. Qed.
+
+Lemma ty_eqb_refl a : ty_eqb a a = true.
+Proof. induction a; cbn; auto; try (rewrite IHa1, IHa2; reflexivity). apply Nat.eqb_refl. Qed.
+Lemma ty_eqb_eq a : forall b, ty_eqb a b = true -> a = b.
+Proof.
+  induction a; destruct b; cbn; try discriminate; try reflexivity; intros H;
+    try (apply Bool.andb_true_iff in H; destruct H as [H1 H2]); f_equal; auto.
+  apply Nat.eqb_eq; assumption.
+Qed.
+
+(* a const whose CodegenTy is an array / a lazy static has a list / set / map type *)
+Definition container_ty (t : ty) : Prop := match t with TyList _ | TySet _ | TyMap _ _ => True | _ => False end.
+Lemma container_const S c ct lc it : nth_error (ls_consts S) c = Some (ct, lc) -> ident_ty_of_const S c = Some it ->
+  is_container_c it = true -> container_ty (erase ct).
+Proof.
+  unfold ident_ty_of_const. intros -> H Hc. injection H as <-. destruct ct; cbn in Hc |- *; try discriminate; exact I.
+Qed.
+
 Section Main.
   Variable parse_f64 : list byte -> option Z.
   Variable S : lschema.
   Variable cval : nat -> lres gval.
   Variable dflt : rty -> lres gval.
   Variable cinl : nat -> cty -> lres (gval * bool).
+  Variable ccls : nat -> cty -> option pclass.
   Variable cv : nat -> option gval.
   Variable empty : ty -> option gval.
+  (* the repairs are in the source (discharged by flags_now) *)
+  Hypothesis Harc : arc_ok = true.
+  Hypothesis Hinl : const_inline_present = true.
   Hypothesis HC : forall c v, const_simple S c = true -> cv c = Some v -> cval c = LOk v.
   Hypothesis HD : forall t d, empty (erase t) = Some d -> dflt t = LOk d.
+  (* a const of container type, lowered from its literal at a target that resolves to the const's type *)
+  Hypothesis HI : forall c ct lc t v, nth_error (ls_consts S) c = Some (ct, lc) ->
+    sresolve S (erase ct) = sresolve S (erase t) -> cv c = Some v -> ccls c (item_cty t) = None ->
+    exists fl, cinl c (item_cty t) = LOk (v, fl).
 
   Notation low := (lower parse_f64 S cval dflt cinl).
   Notation val := (lit_value parse_f64 S cv empty).
+  Notation cls := (pclass_into S ccls).
 
   Definition crel (t : rty) (ty : cty) : Prop := ty = item_cty t \/ (ty = CStr /\ is_string_rty t = true).
 
   (* [en]: true = entered through lit_as_rvalue, false = through lit_into_ty *)
   Definition good (l : lit) : Prop :=
-    forall en t ty v, crel t ty -> val l (erase t) = Some v -> pclass_into S en l ty = None -> exists c, low en l ty = LOk (v, c).
+    forall en t ty v, crel t ty -> val l (erase t) = Some v -> cls en l ty = None -> exists c, low en l ty = LOk (v, c).
 
   Definition nonpath (l : lit) : bool := match l with LMember _ _ | LConst _ => false | _ => true end.
 
-  Lemma pre en l t : nonpath l = true -> pclass_into S en l (item_cty t) = None ->
-    peel S (pfuel S) (item_cty t) = item_cty (rres S t) /\ sresolve S (erase t) = erase (rres S t) /\
-    is_arc_c (peel S (pfuel S) (item_cty t)) = false.
+  (* a literal that is no path has no meaning at a type that does not resolve *)
+  Lemma val_resolved l t v : nonpath l = true -> val l t = Some v -> unresolved S (sresolve S t) = false.
   Proof.
-    intros Hn Hp.
-    assert (Ha : is_arc_c (peel S (pfuel S) (item_cty t)) = false).
-    { destruct l; try discriminate; cbn [pclass_into] in Hp;
-        repeat match type of Hp with context [if ?c then None else Some (if _ then PCFloatSigns else PCFloatExp)] => destruct c end; try discriminate;
-        destruct (peel S (pfuel S) (item_cty t)); try discriminate; reflexivity. }
-    split; [apply peel_item|]. split; [|exact Ha]. apply sres_erase. intros Hk.
-    unfold pfuel in *. set (p := peel S _ (item_cty t)) in *. clearbody p.
-    destruct p; try discriminate; cbn [ckind] in Hk; try discriminate;
-      try (match type of Hk with context [match ?x with _ => _ end] => destruct x; discriminate end);
-      match type of Hk with context [item S ?n] => destruct (item S n) as [[]|]; discriminate end.
+    intros Hn Hv. destruct (unresolved S (sresolve S t)) eqn:E; [|reflexivity]. exfalso.
+    destruct (sresolve S t) eqn:Er; cbn [unresolved] in E; try discriminate.
+    unfold sitem in E.
+    destruct l; try discriminate Hn; cbn [lit_value] in Hv; rewrite Er in Hv; cbv beta match in Hv; try discriminate;
+      unfold sitem in Hv; destruct (nth_error (ls_items S) n) as [[]|]; discriminate.
+  Qed.
+
+  Lemma pre l t v : nonpath l = true -> val l (erase t) = Some v ->
+    tfin S (item_cty t) = item_cty (rstrip S t) /\ sresolve S (erase t) = erase (rstrip S t).
+  Proof.
+    intros Hn Hv. split; [apply (tfin_item S t Harc); exact (val_resolved _ _ _ Hn Hv)|apply sres_rstrip].
   Qed.
 
   Ltac split_item :=
@@ -397,16 +547,22 @@ Section Main.
   Ltac simp_item Hv Hp :=
     cbn in Hv, Hp |- *; unfold sitem, item in *;
     try match goal with E : nth_error (ls_items S) _ = _ |- _ => rewrite E in * end; cbn in Hv, Hp |- *.
-  (* the flag "is lit_as_rvalue asked" as an opaque boolean, both values *)
-  Ltac split_en en ty := let b := fresh "b" in set (b := en || is_nt S ty) in *; clearbody b; destruct b.
+  (* the flags "the walk passed an Arc" and "is lit_as_rvalue asked" as opaque booleans, every value *)
+  Ltac split_fa en t :=
+    let fa := fresh "fa" in let b := fresh "b" in
+    set (fa := fa_of S (item_cty t)) in *; clearbody fa;
+    destruct fa; [|set (b := en || is_nt S (item_cty t)) in *; clearbody b; destruct b].
+  Ltac start l t v Hv :=
+    let Et := fresh "Et" in let Es := fresh "Es" in
+    destruct (pre l t v eq_refl Hv) as (Et & Es);
+    cbn [lower lit_value pclass_into] in *; rewrite Et in *; rewrite Es in Hv; clear Et Es.
 
   Lemma good_int z : good (LInt z).
   Proof.
     intros en t ty v [->|[-> Hs]] Hv Hp.
-    - destruct (pre en (LInt z) t eq_refl Hp) as (Ep & Es & Ea).
-      cbn [lower lit_value pclass_into] in *. rewrite Ea, Bool.andb_false_r in *. rewrite Ep in *. rewrite Es in Hv. clear Ep Es Ea.
-      split_en en (item_cty t);
-      (destruct (rres S t); split_item; simp_item Hv Hp; try discriminate;
+    - start (LInt z) t v Hv.
+      split_fa en t;
+      (destruct (rstrip S t); split_item; simp_item Hv Hp; try discriminate;
         repeat match type of Hv with (if ?b then _ else _) = _ => destruct b eqn:?; try discriminate end;
         try (injection Hv as <-; try (eexists; reflexivity));
         try (rewrite int_to_double_model; eexists; reflexivity)).
@@ -416,22 +572,20 @@ Section Main.
   Lemma good_bool b : good (LBool b).
   Proof.
     intros en t ty v [->|[-> Hs]] Hv Hp.
-    - destruct (pre en (LBool b) t eq_refl Hp) as (Ep & Es & Ea).
-      cbn [lower lit_value pclass_into] in *. rewrite Ea, Bool.andb_false_r in *. rewrite Ep in *. rewrite Es in Hv. clear Ep Es Ea.
-      split_en en (item_cty t);
-      (destruct (rres S t); split_item; simp_item Hv Hp; try discriminate; injection Hv as <-; eexists; reflexivity).
+    - start (LBool b) t v Hv.
+      split_fa en t;
+      (destruct (rstrip S t); split_item; simp_item Hv Hp; try discriminate; injection Hv as <-; eexists; reflexivity).
     - destruct t; try discriminate; cbn in Hv; discriminate.
   Qed.
 
   Lemma good_float s : good (LFloat s).
   Proof.
     intros en t ty v [->|[-> Hs]] Hv Hp.
-    - destruct (pre en (LFloat s) t eq_refl Hp) as (Ep & Es & Ea).
-      cbn [lower lit_value pclass_into] in *. rewrite Ea, Bool.andb_false_r in *. rewrite Ep in *. rewrite Es in Hv. clear Ep Es Ea.
+    - start (LFloat s) t v Hv.
       destruct (float_exp_plain s && float_sign_plain s) eqn:Ef; [|discriminate].
       rewrite (float_text_ok _ Ef).
-      split_en en (item_cty t);
-      (destruct (rres S t); split_item; simp_item Hv Hp; try discriminate;
+      split_fa en t;
+      (destruct (rstrip S t); split_item; simp_item Hv Hp; try discriminate;
         destruct (parse_f64 (sign_norm (exp_norm s))); try discriminate; injection Hv as <-; eexists; reflexivity).
     - destruct t; try discriminate; cbn in Hv; discriminate.
   Qed.
@@ -439,78 +593,45 @@ Section Main.
   Lemma good_string s : good (LString s).
   Proof.
     intros en t ty v [->|[-> Hs]] Hv Hp.
-    - destruct (pre en (LString s) t eq_refl Hp) as (Ep & Es & Ea).
-      cbn [lower lit_value pclass_into] in *. rewrite Ea, Bool.andb_false_r in *. rewrite Ep in *. rewrite Es in Hv. clear Ep Es Ea.
-      split_en en (item_cty t);
-      (destruct (rres S t); split_item; simp_item Hv Hp; try discriminate;
+    - start (LString s) t v Hv.
+      split_fa en t;
+      (destruct (rstrip S t); split_item; simp_item Hv Hp; try discriminate;
         destruct (idl_unescape s) as [b|] eqn:Eu; try discriminate; injection Hv as <-;
+        try (destruct string_at_bytesvec_ok; [|discriminate]);
         rewrite (string_value_ok _ _ Eu); eexists; reflexivity).
-    - cbn [lower]. split_en en CStr;
+    - cbn [lower]. rewrite fa_of_str, tfin_str.
+      set (b := en || is_nt S CStr); clearbody b; destruct b;
       (destruct t; try discriminate; cbn in Hv |- *;
         (destruct (idl_unescape s) as [b|] eqn:Eu; [|discriminate]); injection Hv as <-;
         rewrite (string_value_ok _ _ Eu); eexists; reflexivity).
   Qed.
 
   (* ---------- paths: enum members and const references ---------- *)
-  Lemma peel_enum e ms f : item S e = Some (IEnum ms) -> peel S (Datatypes.S f) (CAdt e) = CAdt e.
-  Proof. intros H. cbn [peel]. rewrite H. reflexivity. Qed.
-
   Lemma good_member e m : good (LMember e m).
   Proof.
     intros en t ty v Hrel Hv Hp. cbn [lit_value] in Hv. unfold sitem in Hv.
     destruct (nth_error (ls_items S) e) as [[| ms | |]|] eqn:Ei; try discriminate.
     destruct (nth_error ms m) as [z|] eqn:Em; try discriminate.
-    assert (Hnt : not_nt S (CAdt e)).
-    { intros n a Hn. injection Hn as <-. unfold item. rewrite Ei. discriminate. }
     cbn [pclass_into] in Hp. cbn [lower]. unfold item. rewrite Ei, Em.
-    destruct Hrel as [->|[-> _]]; [|unfold path_ok, pfuel in Hp; cbn in Hp; unfold item in Hp; rewrite Ei in Hp; cbn in Hp; discriminate].
-    pose proof (peel_item S (pfuel S) t) as Ep. fold (rres S t) in Ep.
-    destruct (path_ok S (CAdt e) (item_cty t)) eqn:Hok; [|discriminate]. unfold path_ok in Hok. rewrite Ep in Hok.
-    assert (Hfin : cty_eqb (CAdt e) (item_cty (rres S t)) = true \/
-                   (cty_eqb (CAdt e) (item_cty (rres S t)) = false /\ is_int_cty (item_cty (rres S t)) = true)).
-    { destruct (cty_eqb (CAdt e) (item_cty (rres S t))) eqn:E2; [left; reflexivity|right; split; [reflexivity|]].
-      destruct (cty_eqb (CAdt e) (item_cty t)) eqn:E1.
-      - apply cty_eqb_eq in E1. rewrite <- E1 in Ep. unfold pfuel in Ep. rewrite (peel_enum e ms _ Ei) in Ep.
-        rewrite <- Ep, cty_eqb_refl in E2. discriminate.
-      - cbn [orb is_str_cty andb] in Hok. unfold ckind, item in Hok. rewrite Ei in Hok. exact Hok. }
-    assert (Hna : is_arc_c (peel S (pfuel S) (item_cty t)) = false).
-    { rewrite Ep. destruct Hfin as [E2|[_ Hint]]; [apply cty_eqb_eq in E2; rewrite <- E2; reflexivity|].
-      destruct (item_cty (rres S t)); try discriminate; reflexivity. }
-    rewrite (ident_noarc _ _ _ _ Hna). unfold ident_into_ty0, ident_conv.
-    destruct Hfin as [E2|[E2 Hint]].
-    - rewrite <- Ep in E2. apply cty_eqb_eq in E2.
-      assert (Hc : in_chain S (pfuel S) (CAdt e) (item_cty t) = true) by (rewrite E2; apply in_chain_peel).
-      rewrite Hc. cbn [lbind].
-      rewrite Ep in E2.
-      assert (Hr : rres S t = RPath e) by (destruct (rres S t); try discriminate; injection E2 as ->; reflexivity).
-      assert (Hs : sresolve S (erase t) = TyRef e).
-      { unfold sresolve. fold (pfuel S). rewrite sres_erase.
-        - fold (rres S t). rewrite Hr. reflexivity.
-        - fold (rres S t) in Ep. rewrite Ep, Hr. cbn. unfold item. rewrite Ei. discriminate. }
-      rewrite Hs, Nat.eqb_refl in Hv. injection Hv as <-. eexists; reflexivity.
-    - rewrite (in_chain_end S _ _ Hnt) by (rewrite Ep; exact E2). rewrite Ep.
-      assert (Hs : sresolve S (erase t) = erase (rres S t)).
-      { unfold sresolve. fold (pfuel S). apply sres_erase. fold (rres S t) in Ep. rewrite Ep.
-        destruct (rres S t); try discriminate; cbn; discriminate. }
-      rewrite Hs in Hv.
-      destruct (rres S t); try discriminate; cbn in Hv;
+    destruct (path_ok S (CAdt e) ty) eqn:Hok; [clear Hp|discriminate]. unfold path_ok in Hok.
+    assert (Hk : ckind S (CAdt e) = Some CPAdtEnum) by (cbn; unfold item; rewrite Ei; reflexivity).
+    rewrite Hk in Hok. cbn [is_str_cty andb orb] in Hok. rewrite Bool.orb_false_r in Hok.
+    destruct Hrel as [->|[-> _]]; [|rewrite chain_of_str, tfin_str in Hok; cbn in Hok; discriminate].
+    assert (Hu : unresolved S (sresolve S (erase t)) = false).
+    { destruct (sresolve S (erase t)) eqn:Er; try reflexivity. destruct (Nat.eqb n e) eqn:En; [|discriminate].
+      apply Nat.eqb_eq in En. subst n. cbn. unfold sitem. rewrite Ei. reflexivity. }
+    pose proof (tfin_item S t Harc Hu) as Et.
+    assert (Es : sresolve S (erase t) = erase (rstrip S t)) by apply sres_rstrip.
+    unfold ident_into_ty.
+    destruct (chain_of S (CAdt e) (item_cty t)) as [b|] eqn:Ech.
+    - destruct (chain_resolves S _ _ _ Ech Hu) as (u & Eu & Hr).
+      destruct u; try discriminate. injection Eu as <-. cbn [erase] in Hr.
+      assert (He : sresolve S (TyRef e) = TyRef e) by (apply sres_term; cbn; unfold sitem; rewrite Ei; reflexivity).
+      rewrite He in Hr. rewrite <- Hr, Nat.eqb_refl in Hv. injection Hv as <-. eexists; reflexivity.
+    - cbn [orb] in Hok. rewrite Et in *. rewrite Es in Hv. unfold ident_conv. rewrite Hk.
+      destruct (rstrip S t); try discriminate; cbn in Hv;
         match type of Hv with (if ?b then _ else _) = _ => destruct b eqn:Eb; try discriminate end;
-        injection Hv as <-; cbn; unfold item; rewrite Ei; cbn; rewrite wrap_id by (reflexivity || exact Eb); eexists; reflexivity.
-  Qed.
-
-  Lemma ty_eqb_refl a : ty_eqb a a = true.
-  Proof. induction a; cbn; auto; try (rewrite IHa1, IHa2; reflexivity). apply Nat.eqb_refl. Qed.
-  Lemma ty_eqb_eq a : forall b, ty_eqb a b = true -> a = b.
-  Proof.
-    induction a; destruct b; cbn; try discriminate; try reflexivity; intros H;
-      try (apply Bool.andb_true_iff in H; destruct H as [H1 H2]); f_equal; auto.
-    apply Nat.eqb_eq; assumption.
-  Qed.
-
-  Lemma not_arc_kind x : is_arc_cty x = false -> ckind S x <> Some CPArc.
-  Proof.
-    destruct x; cbn; try discriminate; try (destruct x; discriminate).
-    destruct (item S n) as [[]|]; discriminate.
+        injection Hv as <-; cbn; rewrite wrap_id by (reflexivity || exact Eb); eexists; reflexivity.
   Qed.
 
   Lemma good_const c : good (LConst c).
@@ -520,72 +641,52 @@ Section Main.
     destruct (unresolved S (sresolve S (erase t))) eqn:Eun; [discriminate|].
     cbn [pclass_into] in Hp. cbn [lower].
     destruct (ident_ty_of_const S c) as [it|] eqn:Eit; [|discriminate].
+    rewrite Hinl in *. cbn [andb] in *.
+    destruct (is_container_c it && negb (cty_eqb it ty)) eqn:Einl.
+    { (* a const of container type at another type: its literal, at the target *)
+      apply andb_prop in Einl. destruct Einl as [Hcont _].
+      pose proof (container_const S _ _ _ _ Ec Eit Hcont) as Hsh.
+      assert (Hrc : sresolve S (erase ct) = erase ct) by (destruct (erase ct); try contradiction; reflexivity).
+      rewrite Hrc in Hv.
+      destruct (ty_eqb (erase ct) (erase t) || ty_eqb (erase ct) (sresolve S (erase t))) eqn:Eq.
+      - assert (Hsame : sresolve S (erase ct) = sresolve S (erase t)).
+        { apply Bool.orb_true_iff in Eq. destruct Eq as [Eq|Eq]; apply ty_eqb_eq in Eq.
+          - rewrite Eq. reflexivity.
+          - rewrite Hrc. exact Eq. }
+        destruct Hrel as [->|[-> Hs]]; [exact (HI c ct lc t v Ec Hsame Hv Hp)|].
+        exfalso. rewrite Hrc in Hsame. destruct t; try discriminate Hs; cbn in Hsame; rewrite Hsame in Hsh; exact Hsh.
+      - exfalso. destruct (erase ct); try contradiction; discriminate. }
     destruct (path_ok S it ty) eqn:Hok; [clear Hp|discriminate]. unfold path_ok in Hok.
-    destruct (cty_eqb it ty) eqn:E1.
-    { (* the const's type is the target *)
-      cbn [negb]. rewrite Bool.andb_false_r.
-      apply cty_eqb_eq in E1. subst it. rewrite ident_eq.
-      assert (Hs : const_simple S c = true /\ erase ct = erase t).
-      { unfold const_simple. rewrite Ec, Eit. destruct Hrel as [->|[-> Hs]].
-        - rewrite (ident_eq_item _ _ _ _ _ Ec Eit), cty_eqb_refl. split; reflexivity.
-        - pose proof (ident_str _ _ _ _ Ec Eit) as Hct. rewrite Hct. split; [apply Bool.orb_true_r|].
-          destruct ct; try discriminate; destruct t; try discriminate; reflexivity. }
-      destruct Hs as [Hs He]. rewrite He, ty_eqb_refl in Hv. cbn [orb] in Hv.
-      rewrite (HC _ _ Hs Hv). eexists; reflexivity. }
-    cbn [orb] in Hok.
-    (* the target is (a typedef of ..) a type the path converts to: only field types *)
-    destruct Hrel as [->|[-> _]].
-    2:{ exfalso. unfold pfuel in Hok. cbn in Hok. rewrite E1 in Hok.
-        destruct (is_str_cty it); destruct (ckind S it) as [[]|]; cbn in Hok; discriminate. }
-    pose proof (peel_item S (pfuel S) t) as Ep. fold (rres S t) in Ep. rewrite Ep in Hok.
-    (* no const of container type, and no Arc at the end of the chain: the repairs container-const-reference and
-       arc-field-default do not interfere *)
-    assert (Hnc : is_container_c it = false /\ is_arc_c (item_cty (rres S t)) = false).
-    { destruct (cty_eqb it (item_cty (rres S t)) && negb (is_arc_cty (item_cty (rres S t)))) eqn:E2.
-      - apply Bool.andb_true_iff in E2. destruct E2 as [E2 Ea]. apply cty_eqb_eq in E2. apply Bool.negb_true_iff in Ea.
-        rewrite E2. split; [apply item_cty_not_container|]. destruct (item_cty (rres S t)); try discriminate; reflexivity.
-      - cbn [orb] in Hok.
-        destruct (is_str_cty it && (is_faststr_cty (item_cty (rres S t)) || is_string_cty (item_cty (rres S t)))) eqn:E3.
-        + destruct it; try discriminate. split; [reflexivity|]. destruct (item_cty (rres S t)); try discriminate; reflexivity.
-        + cbn [orb] in Hok. destruct (ckind S it) as [[]|] eqn:Eik; try discriminate.
-          split; [destruct it; try reflexivity; cbn in Eik; try discriminate; destruct it; discriminate|].
-          destruct (item_cty (rres S t)); try discriminate; reflexivity. }
-    destruct Hnc as [Hnc Hna]. rewrite Hnc, Bool.andb_false_r. cbn [andb].
-    rewrite (ident_noarc S it (item_cty t) (cval c)) by (rewrite Ep; exact Hna).
-    unfold ident_into_ty0, ident_conv. rewrite Ep.
-    destruct (cty_eqb it (item_cty (rres S t)) && negb (is_arc_cty (item_cty (rres S t)))) eqn:E2.
-    { (* the const's type is the type at the end of the target's typedef chain *)
-      apply Bool.andb_true_iff in E2. destruct E2 as [E2 Ea]. apply cty_eqb_eq in E2. apply Bool.negb_true_iff in Ea.
-      assert (Hc : in_chain S (pfuel S) it (item_cty t) = true) by (rewrite E2, <- Ep; apply in_chain_peel).
-      rewrite Hc. subst it.
-      pose proof (ident_eq_item _ _ _ _ _ Ec Eit) as Hct.
-      assert (Hs : const_simple S c = true).
-      { unfold const_simple. rewrite Ec, Eit, Hct, cty_eqb_refl. reflexivity. }
-      assert (Hr : sresolve S (erase t) = erase ct).
-      { unfold sresolve. fold (pfuel S). rewrite sres_erase.
-        - fold (rres S t). rewrite Hct. reflexivity.
-        - fold (rres S t). rewrite Ep. apply not_arc_kind. exact Ea. }
-      rewrite Hr in Hv, Eun. unfold sresolve in Hv at 1. rewrite (sres_term _ _ _ Eun) in Hv.
-      rewrite ty_eqb_refl, Bool.orb_true_r in Hv.
-      rewrite (HC _ _ Hs Hv). eexists; reflexivity. }
-    cbn [orb] in Hok.
-    destruct (is_str_cty it && (is_faststr_cty (item_cty (rres S t)) || is_string_cty (item_cty (rres S t)))) eqn:E3.
+    unfold ident_into_ty.
+    destruct Hrel as [->|[-> Hs]].
+    2:{ (* the definition of a string const that names another string const *)
+        rewrite chain_of_str, tfin_str in *.
+        destruct (cty_eqb it CStr) eqn:E1.
+        - apply cty_eqb_eq in E1. subst it.
+          pose proof (ident_str _ _ _ _ Ec Eit) as Hct.
+          assert (Hcs : const_simple S c = true) by (unfold const_simple; rewrite Ec, Eit, Hct; apply Bool.orb_true_r).
+          assert (He : erase ct = erase t) by (destruct ct; try discriminate; destruct t; try discriminate; reflexivity).
+          rewrite He, ty_eqb_refl in Hv. cbn [orb] in Hv. rewrite (HC _ _ Hcs Hv). eexists; reflexivity.
+        - exfalso. cbn [orb is_faststr_cty is_string_cty is_int_cty] in Hok. rewrite Bool.andb_false_r in Hok.
+          destruct (ckind S it) as [[]|]; discriminate. }
+    pose proof (tfin_item S t Harc Eun) as Et.
+    assert (Es : sresolve S (erase t) = erase (rstrip S t)) by apply sres_rstrip.
+    destruct (chain_of S it (item_cty t)) as [b|] eqn:Ech.
+    { (* the const's type occurs on the walk of the target *)
+      destruct (chain_resolves S _ _ _ Ech Eun) as (u & Eu & Hr). subst it.
+      pose proof (ident_eq_item _ _ _ _ _ Ec Eit) as Hct. subst u.
+      assert (Hcs : const_simple S c = true) by (unfold const_simple; rewrite Ec, Eit, cty_eqb_refl; reflexivity).
+      rewrite Hr, ty_eqb_refl, Bool.orb_true_r in Hv. rewrite (HC _ _ Hcs Hv). eexists; reflexivity. }
+    cbn [orb] in Hok. rewrite Et in *. unfold ident_conv.
+    destruct (is_str_cty it && (is_faststr_cty (item_cty (rstrip S t)) || is_string_cty (item_cty (rstrip S t)))) eqn:E3.
     { (* a string const at a FastStr / String field *)
       destruct it; try discriminate. cbn [is_str_cty andb] in E3.
       pose proof (ident_str _ _ _ _ Ec Eit) as Hct.
-      assert (Hs : const_simple S c = true).
-      { unfold const_simple. rewrite Ec, Eit, Hct. apply Bool.orb_true_r. }
-      assert (Hnt : not_nt S CStr) by (intros n a Hn; discriminate).
-      rewrite (in_chain_end S _ _ Hnt) by (rewrite Ep; destruct (rres S t); reflexivity).
-      assert (Hr : sresolve S (erase t) = TyString /\ (rres S t = RFastStr \/ rres S t = RString)).
-      { unfold sresolve. fold (pfuel S). rewrite sres_erase.
-        - fold (rres S t). destruct (rres S t); try discriminate; split; auto.
-        - fold (rres S t). rewrite Ep. destruct (rres S t); try discriminate; cbn; discriminate. }
-      destruct Hr as [Hr Hrt]. rewrite Hr in Hv.
+      assert (Hcs : const_simple S c = true) by (unfold const_simple; rewrite Ec, Eit, Hct; apply Bool.orb_true_r).
       assert (Hrc : sresolve S (erase ct) = TyString) by (destruct ct; try discriminate; reflexivity).
-      rewrite Hrc in Hv. cbn [ty_eqb] in Hv. rewrite Bool.orb_true_r in Hv.
-      rewrite (HC _ _ Hs Hv).
-      destruct Hrt as [-> | ->]; cbn; eexists; reflexivity. }
+      rewrite Hrc, Es in Hv.
+      destruct (rstrip S t); try discriminate; cbn [erase ty_eqb] in Hv; rewrite Bool.orb_true_r in Hv;
+        rewrite (HC _ _ Hcs Hv); cbn; eexists; reflexivity. }
     cbn [orb] in Hok.
     (* an enum-typed const at an integer field *)
     destruct (ckind S it) as [ik|] eqn:Eik; [|discriminate]. destruct ik; try discriminate.
@@ -595,32 +696,27 @@ Section Main.
       exists n. split; [reflexivity|]. split; [reflexivity|]. cbn. unfold sitem. unfold item in Eik.
       destruct (nth_error (ls_items S) n) as [[]|]; try discriminate; reflexivity. }
     destruct Hct as (n & -> & -> & Hun).
-    assert (Hs : const_simple S c = true).
+    assert (Hcs : const_simple S c = true).
     { unfold const_simple. rewrite Ec, Eit. cbn [item_cty]. rewrite cty_eqb_refl. reflexivity. }
-    assert (Hnt : not_nt S (CAdt n)).
-    { intros n' a Hn. injection Hn as <-. unfold item. cbn in Hun. unfold sitem in Hun. intros E. rewrite E in Hun. discriminate. }
-    assert (E4 : cty_eqb (CAdt n) (item_cty (rres S t)) = false) by (destruct (rres S t); try discriminate; reflexivity).
-    rewrite (in_chain_end S _ _ Hnt) by (rewrite Ep; exact E4).
-    assert (Hr : sresolve S (erase t) = erase (rres S t)).
-    { unfold sresolve. fold (pfuel S). apply sres_erase. fold (rres S t). rewrite Ep. destruct (rres S t); try discriminate; cbn; discriminate. }
-    rewrite Hr in Hv. cbn [erase] in Hv. unfold sresolve in Hv. rewrite !(sres_term _ _ _ Hun) in Hv.
+    cbn [erase] in Hv. rewrite Es in Hv.
+    assert (He : sresolve S (TyRef n) = TyRef n) by (apply sres_term; exact Hun). rewrite He in Hv.
     assert (HA : ty_eqb (TyRef n) (erase t) = false).
     { destruct (ty_eqb (TyRef n) (erase t)) eqn:EA; [|reflexivity]. apply ty_eqb_eq in EA.
-      rewrite <- EA in Hr. unfold sresolve in Hr. rewrite (sres_term _ _ _ Hun) in Hr.
-      destruct (rres S t); discriminate. }
-    assert (HB : ty_eqb (TyRef n) (erase (rres S t)) = false) by (destruct (rres S t); try discriminate; reflexivity).
+      rewrite <- EA in Es. unfold sresolve in Es. rewrite (sres_term _ _ _ Hun) in Es.
+      destruct (rstrip S t); discriminate. }
+    assert (HB : ty_eqb (TyRef n) (erase (rstrip S t)) = false) by (destruct (rstrip S t); try discriminate; reflexivity).
     rewrite HA, HB in Hv. cbn [orb] in Hv.
     destruct (cv c) as [[]|] eqn:Ecv; try discriminate.
     destruct (sitem S n) as [[]|]; try discriminate.
-    rewrite (HC _ _ Hs Ecv).
-    destruct (rres S t); try discriminate; cbn [erase int_at] in Hv;
+    rewrite (HC _ _ Hcs Ecv).
+    destruct (rstrip S t); try discriminate; cbn [erase int_at] in Hv;
       match type of Hv with (if ?b then _ else _) = _ => destruct b eqn:Eb; try discriminate end;
       injection Hv as <-; cbn; rewrite wrap_id by (reflexivity || exact Eb); eexists; reflexivity.
   Qed.
 
   Lemma list_ok els : Forall good els -> forall a vs,
     spec_list val (erase a) els = Some vs ->
-    first_class (fun x => pclass_into S true x (item_cty a)) els = None ->
+    first_class (fun x => cls true x (item_cty a)) els = None ->
     exists xs, low_list (low true) (item_cty a) els = LOk xs /\ map fst xs = vs.
   Proof.
     induction 1 as [|x r Hx Hr IH]; intros a vs Hv Hp.
@@ -628,8 +724,8 @@ Section Main.
     - cbn [spec_list] in Hv. destruct (val x (erase a)) as [va|] eqn:Ea; [|discriminate].
       fold (spec_list val (erase a)) in Hv. destruct (spec_list val (erase a) r) as [vr|] eqn:Er; [|discriminate].
       injection Hv as <-. cbn [first_class] in Hp.
-      destruct (pclass_into S true x (item_cty a)) eqn:Ex; [discriminate|].
-      fold (first_class (fun x => pclass_into S true x (item_cty a))) in Hp.
+      destruct (cls true x (item_cty a)) eqn:Ex; [discriminate|].
+      fold (first_class (fun x => cls true x (item_cty a))) in Hp.
       destruct (Hx true a (item_cty a) va (or_introl eq_refl) Ea Ex) as (c & Hc).
       destruct (IH a vr Er Hp) as (xs & Hxs & Hm).
       exists ((va, c) :: xs). split; [|cbn; rewrite Hm; reflexivity].
@@ -639,18 +735,17 @@ Section Main.
   Lemma good_list els : Forall good els -> good (LList els).
   Proof.
     intros HF en t ty v [->|[-> Hs]] Hv Hp.
-    - destruct (pre en (LList els) t eq_refl Hp) as (Ep & Es & Ea).
-      cbn [lower lit_value pclass_into] in *. rewrite Ea, Bool.andb_false_r in *. rewrite Ep in *. rewrite Es in Hv. clear Ep Es Ea.
-      split_en en (item_cty t);
-      (destruct (rres S t) as [| | | | | | | | | | | | |a|a|a|a a'|a a'|a|n]; split_item; simp_item Hv Hp; try discriminate);
+    - start (LList els) t v Hv.
+      split_fa en t;
+      (destruct (rstrip S t) as [| | | | | | | | | | | | |a|a|a|a a'|a a'|a|n]; split_item; simp_item Hv Hp; try discriminate);
       try (destruct els; [|discriminate]; injection Hv as <-; eexists; reflexivity);
       try (change (match spec_list val (erase a) els with Some vs => Some (GList vs) | None => None end = Some v) in Hv;
-           change (first_class (fun x => pclass_into S true x (item_cty a)) els = None) in Hp;
+           change (first_class (fun x => cls true x (item_cty a)) els = None) in Hp;
            change (exists c, (let+ xs := low_list (low true) (item_cty a) els in LOk (GList (map fst xs), false)) = LOk (v, c));
            destruct (spec_list val (erase a) els) as [vs|] eqn:Ev; [|discriminate]; injection Hv as <-;
            destruct (list_ok els HF a vs Ev Hp) as (xs & -> & <-); eexists; reflexivity);
       try (change (match spec_list val (erase a) els with Some vs => Some (GSet vs) | None => None end = Some v) in Hv;
-           change (first_class (fun x => pclass_into S true x (item_cty a)) els = None) in Hp;
+           change (first_class (fun x => cls true x (item_cty a)) els = None) in Hp;
            change (exists c, (let+ xs := low_list (low true) (item_cty a) els in LOk (GSet (map fst xs), false)) = LOk (v, c));
            destruct (spec_list val (erase a) els) as [vs|] eqn:Ev; [|discriminate]; injection Hv as <-;
            destruct (list_ok els HF a vs Ev Hp) as (xs & -> & <-); eexists; reflexivity).
@@ -659,7 +754,7 @@ Section Main.
 
   Definition good2 (kv : lit * lit) : Prop := good (fst kv) /\ good (snd kv).
 
-  Lemma look_ok m : Forall good2 m -> forall fs f, class_pairs S fs m = None -> In f fs -> forall res,
+  Lemma look_ok m : Forall good2 m -> forall fs f, class_pairs S ccls fs m = None -> In f fs -> forall res,
     spec_look val (lf_name f) (erase (lf_ty f)) m = Some res ->
     match res with
     | Some x => exists c, low_look (low true) (lf_name f) (item_cty (lf_ty f)) m = LOk (Some (x, c))
@@ -670,18 +765,18 @@ Section Main.
     - injection Hv as <-. reflexivity.
     - cbn [spec_look] in Hv. cbn [low_look]. cbn [class_pairs] in Hp.
       destruct k; try discriminate.
-      destruct (class_over S w s fs) eqn:Eo; [discriminate|].
-      fold (class_pairs S fs) in Hp. fold (spec_look val (lf_name f) (erase (lf_ty f))) in Hv.
+      destruct (class_over S ccls w s fs) eqn:Eo; [discriminate|].
+      fold (class_pairs S ccls fs) in Hp. fold (spec_look val (lf_name f) (erase (lf_ty f))) in Hv.
       fold (low_look (low true) (lf_name f) (item_cty (lf_ty f))).
       destruct (bytes_eqb s (lf_name f)) eqn:Eb.
       + destruct (val w (erase (lf_ty f))) as [x|] eqn:Ex; [|discriminate]. injection Hv as <-.
         cbn [snd] in Hw.
-        destruct (Hw true (lf_ty f) (item_cty (lf_ty f)) x (or_introl eq_refl) Ex (class_over_in _ _ _ _ _ Eo Hin Eb)) as (c & Hc).
+        destruct (Hw true (lf_ty f) (item_cty (lf_ty f)) x (or_introl eq_refl) Ex (class_over_in _ _ _ _ _ _ Eo Hin Eb)) as (c & Hc).
         exists c. rewrite Hc. reflexivity.
       + exact (IH fs f Hp Hin res Hv).
   Qed.
 
-  Lemma fields_ok m : Forall good2 m -> forall fs0, class_pairs S fs0 m = None -> forall fs out, incl fs fs0 ->
+  Lemma fields_ok m : Forall good2 m -> forall fs0, class_pairs S ccls fs0 m = None -> forall fs out, incl fs fs0 ->
     spec_fields val empty m fs = Some out -> exists c, low_fields (low true) dflt m fs = LOk (out, c).
   Proof.
     intros Hm fs0 Hp. induction fs as [|f r IH]; intros out Hin Hv.
@@ -701,22 +796,22 @@ Section Main.
         * injection Hv as <-. cbn [lbind]. rewrite Hc'. eexists; reflexivity.
   Qed.
 
-  (* mk_map: keys through lit_into_ty, values through lit_as_rvalue *)
+  (* mk_map: keys through lit_into_ty (lit_as_rvalue where repaired), values through lit_as_rvalue *)
   Definition class_kv (kt vt : cty) : list (lit * lit) -> option pclass :=
     fix go (m : list (lit * lit)) : option pclass :=
       match m with
       | [] => None
       | (k, v) :: r =>
-          match pclass_into S false k kt with
+          match cls map_key_rvalue k kt with
           | Some c => Some c
-          | None => match pclass_into S true v vt with Some c => Some c | None => go r end
+          | None => match cls true v vt with Some c => Some c | None => go r end
           end
       end.
 
   Lemma pairs_ok m : Forall good2 m -> forall kt vt kvs,
     spec_pairs val (erase kt) (erase vt) m = Some kvs ->
     class_kv (item_cty kt) (item_cty vt) m = None ->
-    low_pairs (low true) (low false) (item_cty kt) (item_cty vt) m = LOk kvs.
+    low_pairs (low true) (low map_key_rvalue) (item_cty kt) (item_cty vt) m = LOk kvs.
   Proof.
     induction 1 as [|[k w] r [Hk Hw] Hr IH]; intros kt vt kvs Hv Hp.
     - injection Hv as <-. reflexivity.
@@ -725,33 +820,33 @@ Section Main.
       destruct (val w (erase vt)) as [b|] eqn:Eb; [|discriminate].
       destruct (spec_pairs val (erase kt) (erase vt) r) as [c|] eqn:Er; [|discriminate]. injection Hv as <-.
       cbn [class_kv] in Hp.
-      destruct (pclass_into S false k (item_cty kt)) eqn:Ek; [discriminate|].
-      destruct (pclass_into S true w (item_cty vt)) eqn:Ew; [discriminate|].
+      destruct (cls map_key_rvalue k (item_cty kt)) eqn:Ek; [discriminate|].
+      destruct (cls true w (item_cty vt)) eqn:Ew; [discriminate|].
       fold (class_kv (item_cty kt) (item_cty vt)) in Hp.
       cbn [fst snd] in Hk, Hw.
-      destruct (Hk false kt _ a (or_introl eq_refl) Ea Ek) as (ca & Ha).
+      destruct (Hk map_key_rvalue kt _ a (or_introl eq_refl) Ea Ek) as (ca & Ha).
       destruct (Hw true vt _ b (or_introl eq_refl) Eb Ew) as (cb & Hb).
-      cbn [low_pairs]. rewrite Ha, Hb. cbn [lbind fst]. fold (low_pairs (low true) (low false) (item_cty kt) (item_cty vt)).
+      cbn [low_pairs]. rewrite Ha, Hb. cbn [lbind fst]. fold (low_pairs (low true) (low map_key_rvalue) (item_cty kt) (item_cty vt)).
       rewrite (IH kt vt c Er Hp). reflexivity.
   Qed.
 
   Lemma good_map m : Forall good2 m -> good (LMap m).
   Proof.
     intros HF en t ty v [->|[-> Hs]] Hv Hp.
-    - destruct (pre en (LMap m) t eq_refl Hp) as (Ep & Es & Ea).
-      cbn [lower lit_value pclass_into] in *. rewrite Ea, Bool.andb_false_r in *. rewrite Ep in *. rewrite Es in Hv. clear Ep Es Ea.
-      split_en en (item_cty t);
-      (destruct (rres S t) as [| | | | | | | | | | | | |a|a|a|a a'|a a'|a|n]; split_item; simp_item Hv Hp; try discriminate);
+    - start (LMap m) t v Hv.
+      split_fa en t;
+      (destruct (rstrip S t) as [| | | | | | | | | | | | |a|a|a|a a'|a a'|a|n]; split_item; simp_item Hv Hp; try discriminate);
       try (change (match spec_pairs val (erase a) (erase a') m with Some kvs => Some (GMap kvs) | None => None end = Some v) in Hv;
            change (class_kv (item_cty a) (item_cty a') m = None) in Hp;
-           change (exists c, (let+ kvs := low_pairs (low true) (low false) (item_cty a) (item_cty a') m in LOk (GMap kvs, false)) = LOk (v, c));
+           change (exists c, (let+ kvs := low_pairs (low true) (low map_key_rvalue) (item_cty a) (item_cty a') m in LOk (GMap kvs, false)) = LOk (v, c));
            destruct (spec_pairs val (erase a) (erase a') m) as [kvs|] eqn:Es; [|discriminate]; injection Hv as <-;
            rewrite (pairs_ok m HF a a' kvs Es Hp); eexists; reflexivity);
       try (repeat match type of Hv with (if ?b then None else _) = _ => destruct b; [discriminate|] end;
            match goal with E : nth_error (ls_items S) _ = Some (IStruct ?fs _ _) |- _ =>
              change (match spec_fields val empty m fs with Some out => Some (GStruct out []) | None => None end = Some v) in Hv;
-             change (class_pairs S fs m = None) in Hp;
-             change (exists c, (let+ out := low_fields (low true) dflt m fs in LOk (GStruct (fst out) [], snd out)) = LOk (v, c));
+             change (class_pairs S ccls fs m = None) in Hp;
+             first [ change (exists c, (let+ out := low_fields (low true) dflt m fs in LOk (GStruct (fst out) [], snd out)) = LOk (v, c))
+                   | change (exists c, (let+ out := low_fields (low true) dflt m fs in LOk (GStruct (fst out) [], false)) = LOk (v, c)) ];
              destruct (spec_fields val empty m fs) as [out|] eqn:Ef; [|discriminate]; injection Hv as <-;
              destruct (fields_ok m HF fs Hp fs out (incl_refl _) Ef) as (c & ->); eexists; reflexivity
            end).
@@ -765,31 +860,101 @@ Section Main.
     - apply good_list; assumption.
     - apply good_map; assumption.
   Qed.
-
-  (* the top of a default: lit_as_rvalue *)
-  Lemma top_good l t v : val l (erase t) = Some v -> pclass_top S l (item_cty t) = None ->
-    exists c, lit_as_rvalue parse_f64 S cval dflt cinl l (item_cty t) = LOk (v, c).
-  Proof. intros Hv Hp. exact (lit_good l true t _ v (or_introl eq_refl) Hv Hp). Qed.
 End Main.
 
-(* ---------- typedef / Arc chains for Default::default() ---------- *)
-Lemma erase_unarc t : erase (unarc t) = erase t.
-Proof. induction t; cbn; auto. Qed.
-Lemma unarc_not_arc t a : unarc t <> RArc a.
-Proof. induction t; cbn; try discriminate; auto. Qed.
-Lemma rstrip_not_arc S f : forall t a, rstrip_n S f t <> RArc a.
+(* ---------- the class predicate looks further with more unfolding fuel ---------- *)
+Definition ccls_n (S : lschema) (f : nat) : nat -> cty -> option pclass :=
+  fun c ty' => match nth_error (ls_consts S) c with
+               | Some (_, lc) => pclass_n S f true lc ty'
+               | None => Some PCDangling
+               end.
+Lemma pclass_n_S S f en l ty : pclass_n S (Datatypes.S f) en l ty = pclass_into S (ccls_n S f) en l ty.
+Proof. reflexivity. Qed.
+
+Lemma first_mono (f g : lit -> option pclass) els : Forall (fun x => f x = None -> g x = None) els ->
+  first_class f els = None -> first_class g els = None.
 Proof.
-  induction f as [|f IH]; intros t a; cbn [rstrip_n]; [apply unarc_not_arc|].
-  destruct (unarc t) eqn:E; try discriminate.
-  - rewrite <- E. apply unarc_not_arc.
-  - destruct (item S n) as [[]|]; try discriminate. apply IH.
+  induction 1 as [|x r Hx Hr IH]; intros H; [reflexivity|]. cbn [first_class] in *.
+  destruct (f x) eqn:E; [discriminate|]. rewrite (Hx eq_refl). fold (first_class f) in H. fold (first_class g). exact (IH H).
 Qed.
-Lemma sres_rstrip S f : forall t, sresolve_n S f (erase t) = erase (rstrip_n S f t).
+
+Section Mono.
+  Variable S : lschema.
+  Variables c1 c2 : nat -> cty -> option pclass.
+  Hypothesis Hc : forall c ty, c1 c ty = None -> c2 c ty = None.
+
+  Definition mono (l : lit) : Prop := forall en ty, pclass_into S c1 en l ty = None -> pclass_into S c2 en l ty = None.
+  Definition mono2 (kv : lit * lit) : Prop := mono (fst kv) /\ mono (snd kv).
+
+  Lemma over_mono v s fs : mono v -> class_over S c1 v s fs = None -> class_over S c2 v s fs = None.
+  Proof.
+    intros Hv. induction fs as [|f fr IH]; intros H; [reflexivity|]. cbn [class_over] in *.
+    destruct (bytes_eqb s (lf_name f)).
+    - destruct (pclass_into S c1 true v (item_cty (lf_ty f))) eqn:E; [discriminate|]. rewrite (Hv _ _ E). exact (IH H).
+    - exact (IH H).
+  Qed.
+
+  Lemma pairs_mono fs m : Forall mono2 m -> class_pairs S c1 fs m = None -> class_pairs S c2 fs m = None.
+  Proof.
+    induction 1 as [|[k w] r [Hk Hw] Hr IH]; intros H; [reflexivity|]. cbn [class_pairs] in *.
+    destruct k; try exact (IH H).
+    destruct (class_over S c1 w s fs) eqn:E; [discriminate|]. cbn [snd] in Hw. rewrite (over_mono _ _ _ Hw E). exact (IH H).
+  Qed.
+
+  Lemma kv_mono kt vt m : Forall mono2 m -> class_kv S c1 kt vt m = None -> class_kv S c2 kt vt m = None.
+  Proof.
+    induction 1 as [|[k w] r [Hk Hw] Hr IH]; intros H; [reflexivity|]. cbn [class_kv] in *. cbn [fst snd] in Hk, Hw.
+    destruct (pclass_into S c1 map_key_rvalue k kt) eqn:Ek; [discriminate|]. rewrite (Hk _ _ Ek).
+    destruct (pclass_into S c1 true w vt) eqn:Ew; [discriminate|]. rewrite (Hw _ _ Ew). exact (IH H).
+  Qed.
+
+  Lemma pclass_mono : forall l, mono l.
+  Proof.
+    induction l using lit_ind'; intros en ty Hp; try exact Hp.
+    - (* const *) cbn [pclass_into] in *. destruct (ident_ty_of_const S _) as [it|]; [|exact Hp].
+      destruct (const_inline_present && is_container_c it && negb (cty_eqb it ty)); [apply Hc|]; exact Hp.
+    - (* list *) cbn [pclass_into] in *. destruct (tfin S ty); try exact Hp.
+      + change (first_class (fun x => pclass_into S c1 true x c) l = None) in Hp.
+        change (first_class (fun x => pclass_into S c2 true x c) l = None).
+        refine (first_mono _ _ _ _ Hp). eapply Forall_impl; [|exact H]. intros x Hx. apply Hx.
+      + change (first_class (fun x => pclass_into S c1 false x c) l = None) in Hp.
+        change (first_class (fun x => pclass_into S c2 false x c) l = None).
+        refine (first_mono _ _ _ _ Hp). eapply Forall_impl; [|exact H]. intros x Hx. apply Hx.
+      + change (first_class (fun x => pclass_into S c1 true x c) l = None) in Hp.
+        change (first_class (fun x => pclass_into S c2 true x c) l = None).
+        refine (first_mono _ _ _ _ Hp). eapply Forall_impl; [|exact H]. intros x Hx. apply Hx.
+      + change (first_class (fun x => pclass_into S c1 true x c) l = None) in Hp.
+        change (first_class (fun x => pclass_into S c2 true x c) l = None).
+        refine (first_mono _ _ _ _ Hp). eapply Forall_impl; [|exact H]. intros x Hx. apply Hx.
+    - (* map *) cbn [pclass_into] in *. destruct (tfin S ty); try exact Hp.
+      + destruct (if fa_of S ty then true else en || is_nt S ty); [|exact Hp].
+        exact (kv_mono _ _ _ H Hp).
+      + destruct (if fa_of S ty then true else en || is_nt S ty); [|exact Hp].
+        exact (kv_mono _ _ _ H Hp).
+      + destruct (item S n) as [[]|]; try exact Hp. exact (pairs_mono _ _ H Hp).
+  Qed.
+End Mono.
+
+Lemma pclass_n_down S f : forall en l ty, pclass_n S (Datatypes.S f) en l ty = None -> pclass_n S f en l ty = None.
 Proof.
-  induction f as [|f IH]; intros t; cbn [sresolve_n rstrip_n]; [symmetry; apply erase_unarc|].
-  rewrite <- (erase_unarc t). destruct (unarc t) eqn:E; try reflexivity.
-  - exfalso. exact (unarc_not_arc _ _ E).
-  - cbn [erase]. unfold sitem, item. destruct (nth_error (ls_items S) n) as [[]|]; auto.
+  induction f as [|f IH]; intros en l ty H; [reflexivity|]. rewrite pclass_n_S in *.
+  refine (pclass_mono S _ _ _ l en ty H). intros c ty'. unfold ccls_n.
+  destruct (nth_error (ls_consts S) c) as [[ct lc]|]; [apply IH|trivial].
+Qed.
+Lemma pclass_n_le S f g : (f <= g)%nat -> forall en l ty, pclass_n S g en l ty = None -> pclass_n S f en l ty = None.
+Proof. induction 1 as [|g Hle IH]; intros en l ty Hp; [exact Hp|]. apply IH. apply pclass_n_down. exact Hp. Qed.
+
+(* the meaning of a literal depends on the target only through what it resolves to *)
+Lemma lit_value_sres pf S cv empty l t1 t2 : sresolve S t1 = sresolve S t2 ->
+  lit_value pf S cv empty l t1 = lit_value pf S cv empty l t2.
+Proof.
+  intros H. destruct l; cbn [lit_value]; rewrite H; try reflexivity.
+  destruct (nth_error (ls_consts S) c) as [[ct lc]|]; [|reflexivity]. cbn zeta.
+  assert (E : forall t, sresolve S t = sresolve S t2 ->
+              ty_eqb (erase ct) t || ty_eqb (sresolve S (erase ct)) (sresolve S t2) = ty_eqb (sresolve S (erase ct)) (sresolve S t2)).
+  { intros t Ht. destruct (ty_eqb (erase ct) t) eqn:E; [|reflexivity]. apply ty_eqb_eq in E.
+    rewrite E, Ht, ty_eqb_refl. reflexivity. }
+  rewrite (E t1 H), (E t2 eq_refl). reflexivity.
 Qed.
 
 (* the struct clause of ev's QDefault, named *)
@@ -811,10 +976,14 @@ Definition ev_fields (top : lit -> cty -> lres (gval * bool)) (dflt : rty -> lre
         LOk (match here with Some x => (lf_id fd, x) :: rest | None => rest end)
     end.
 
+
 Section Fuel.
   Variable parse_f64 : list byte -> option Z.
   Variable S : lschema.
   Hypothesis Hcf : class_free_schema S = true.
+
+  Let Harc : arc_ok = true := proj1 flags_now.
+  Let Hinl : const_inline_present = true := proj1 (proj2 flags_now).
 
   Lemma field_class_free n fs k a f l : nth_error (ls_items S) n = Some (IStruct fs k a) -> In f fs -> lf_dflt f = Some l ->
     pclass_top S l (item_cty (lf_ty f)) = None.
@@ -826,21 +995,36 @@ Section Fuel.
   Qed.
 
   Lemma const_class_free_at c ct lc it : nth_error (ls_consts S) c = Some (ct, lc) -> ident_ty_of_const S c = Some it ->
-    const_simple S c = true -> pclass_into S (should_lazy_static S it) lc it = None.
+    const_simple S c = true -> pclass_n S (cfuel S) (should_lazy_static S it) lc it = None.
   Proof.
     intros Hc Hi Hs. unfold class_free_schema in Hcf. apply Bool.andb_true_iff in Hcf. destruct Hcf as [_ H2].
     rewrite forallb_forall in H2.
     assert (Hlt : (c < length (ls_consts S))%nat) by (apply nth_error_Some; congruence).
     specialize (H2 c ltac:(apply in_seq; lia)). unfold const_class_free in H2. rewrite Hs, Hc, Hi in H2.
-    destruct (pclass_into S (should_lazy_static S it) lc it); [discriminate|reflexivity].
+    destruct (pclass_n S (cfuel S) (should_lazy_static S it) lc it); [discriminate|reflexivity].
   Qed.
 
   Definition PC (f : nat) : Prop := forall c v, const_simple S c = true ->
     sv parse_f64 S f (SConst c) = Some v -> ev parse_f64 S f (QConst c) = LOk v.
   Definition PD (f : nat) : Prop := forall t d,
     sv parse_f64 S f (SEmpty (erase t)) = Some d -> ev parse_f64 S f (QDefault t) = LOk d.
+  Definition PI (f : nat) : Prop := forall c ct lc t v, nth_error (ls_consts S) c = Some (ct, lc) ->
+    sresolve S (erase ct) = sresolve S (erase t) -> sv parse_f64 S f (SConst c) = Some v ->
+    ccls_n S f c (item_cty t) = None -> exists fl, evi parse_f64 S f c (item_cty t) = LOk (v, fl).
 
-  Lemma fields_default f (HC : PC f) (HD : PD f) n fs0 k a : nth_error (ls_items S) n = Some (IStruct fs0 k a) ->
+  (* the top of a default at unfolding level f: lit_as_rvalue *)
+  Lemma top_good f (HC : PC f) (HD : PD f) (HI : PI f) l t v :
+    lit_value parse_f64 S (fun c => sv parse_f64 S f (SConst c)) (fun t => sv parse_f64 S f (SEmpty t)) l (erase t) = Some v ->
+    pclass_n S (Datatypes.S f) true l (item_cty t) = None ->
+    exists c, lit_as_rvalue parse_f64 S (fun c => ev parse_f64 S f (QConst c)) (fun t => ev parse_f64 S f (QDefault t))
+                            (evi parse_f64 S f) l (item_cty t) = LOk (v, c).
+  Proof.
+    intros Hv Hp. rewrite pclass_n_S in Hp.
+    exact (lit_good parse_f64 S _ _ _ (ccls_n S f) _ _ Harc Hinl HC HD HI l true t _ v (or_introl eq_refl) Hv Hp).
+  Qed.
+
+  Lemma fields_default f (Hle : (f <= efuel S)%nat) (HC : PC f) (HD : PD f) (HI : PI f) n fs0 k a :
+    nth_error (ls_items S) n = Some (IStruct fs0 k a) ->
     forall fs out, incl fs fs0 ->
     sempty_fields (lit_value parse_f64 S (fun c => sv parse_f64 S f (SConst c)) (fun t => sv parse_f64 S f (SEmpty t)))
                   (fun t => sv parse_f64 S f (SEmpty t)) fs = Some out ->
@@ -853,8 +1037,10 @@ Section Fuel.
       assert (Hin' : incl r fs0) by (intros x Hx; apply Hin; right; exact Hx).
       destruct (lf_dflt fd) as [l|] eqn:Ed.
       + destruct (lit_value _ _ _ _ l (erase (lf_ty fd))) as [x|] eqn:Ex; [|discriminate].
-        destruct (top_good parse_f64 S _ _ (evi parse_f64 S f) _ _ HC HD l (lf_ty fd) x Ex
-                    (field_class_free _ _ _ _ _ _ Hn (Hin fd (or_introl eq_refl)) Ed)) as (c & ->).
+        assert (Hp : pclass_n S (Datatypes.S f) true l (item_cty (lf_ty fd)) = None).
+        { refine (pclass_n_le S _ (cfuel S) _ _ _ _ (field_class_free _ _ _ _ _ _ Hn (Hin fd (or_introl eq_refl)) Ed)).
+          unfold cfuel. lia. }
+        destruct (top_good f HC HD HI l (lf_ty fd) x Ex Hp) as (c & ->).
         cbn [lbind fst].
         match type of Hv with match ?g r with _ => _ end = _ => destruct (g r) as [rest|] eqn:Er; [|discriminate] end.
         injection Hv as <-. rewrite (IH rest Hin' eq_refl). reflexivity.
@@ -875,22 +1061,31 @@ Section Fuel.
     | _, _ => LPanic PUnwrap
     end.
   Proof. reflexivity. Qed.
+  Lemma evi_S f c ty : evi parse_f64 S (Datatypes.S f) c ty =
+    match nth_error (ls_consts S) c with
+    | Some (_, l) => lit_as_rvalue parse_f64 S (fun c => ev parse_f64 S f (QConst c)) (fun t => ev parse_f64 S f (QDefault t)) (evi parse_f64 S f) l ty
+    | None => LPanic PUnwrap
+    end.
+  Proof. reflexivity. Qed.
 
-  Lemma ev_sv f : PC f /\ PD f.
+  Lemma ev_sv f : (f <= efuel S)%nat -> PC f /\ PD f /\ PI f.
   Proof.
-    induction f as [|f [HC HD]]; [split; intros ? ? ?; try intros ?; discriminate|].
-    split.
+    induction f as [|f IH]; intros Hle.
+    { split; [|split]; intros; discriminate. }
+    destruct (IH ltac:(lia)) as (HC & HD & HI).
+    split; [|split].
     - intros c v Hs Hv. cbn [sv] in Hv. rewrite ev_const_S.
       destruct (nth_error (ls_consts S) c) as [[ct lc]|] eqn:Ec; [|discriminate].
       destruct (ident_ty_of_const S c) as [it|] eqn:Ei; [|unfold const_simple in Hs; rewrite Ec, Ei in Hs; discriminate].
-      pose proof (const_class_free_at _ _ _ _ Ec Ei Hs) as Hp.
+      assert (Hp : pclass_into S (ccls_n S f) (should_lazy_static S it) lc it = None).
+      { rewrite <- pclass_n_S. refine (pclass_n_le S _ (cfuel S) _ _ _ _ (const_class_free_at _ _ _ _ Ec Ei Hs)). unfold cfuel. lia. }
       unfold const_simple in Hs. rewrite Ec, Ei in Hs. unfold def_lit, lit_as_rvalue, lit_into_ty.
       assert (Hrel : crel ct it).
       { destruct (cty_eqb it (item_cty ct)) eqn:Eq.
         - left. apply cty_eqb_eq. exact Eq.
         - right. cbn [orb] in Hs. split; [|exact Hs].
           unfold ident_ty_of_const in Ei. rewrite Ec in Ei. injection Ei as <-. destruct ct; try discriminate; reflexivity. }
-      destruct (lit_good parse_f64 S _ _ (evi parse_f64 S f) _ _ HC HD lc (should_lazy_static S it) ct it v Hrel Hv Hp) as (cc & Hl).
+      destruct (lit_good parse_f64 S _ _ _ (ccls_n S f) _ _ Harc Hinl HC HD HI lc (should_lazy_static S it) ct it v Hrel Hv Hp) as (cc & Hl).
       destruct (should_lazy_static S it); rewrite Hl; reflexivity.
     - intros t d Hv. cbn [sv] in Hv. cbn [ev]. unfold sempty_step in Hv.
       unfold sresolve in Hv. rewrite sres_rstrip in Hv. fold (pfuel S) in Hv. fold (rstrip S t) in Hv.
@@ -903,10 +1098,14 @@ Section Fuel.
           injection Hv as <-.
           change (lbind (ev_fields (lit_as_rvalue parse_f64 S (fun c => ev parse_f64 S f (QConst c)) (fun t => ev parse_f64 S f (QDefault t)) (evi parse_f64 S f))
                                    (fun t => ev parse_f64 S f (QDefault t)) fs) (fun out => LOk (GStruct out [])) = LOk (GStruct out [])).
-          rewrite (fields_default f HC HD n fs k a En fs out (incl_refl _) Ef). reflexivity.
+          rewrite (fields_default f ltac:(lia) HC HD HI n fs k a En fs out (incl_refl _) Ef). reflexivity.
         * injection Hv as <-. reflexivity.
         * destruct vs as [|[id vt] vr]; [discriminate|].
           destruct (sv parse_f64 S f (SEmpty (erase vt))) as [x|] eqn:Ex; [|discriminate]. injection Hv as <-.
           rewrite (HD _ _ Ex). reflexivity.
+    - intros c ct lc t v Ec Hr Hv Hp. cbn [sv] in Hv. rewrite Ec in Hv. rewrite evi_S, Ec.
+      unfold ccls_n in Hp. rewrite Ec in Hp. rewrite pclass_n_S in Hp.
+      rewrite (lit_value_sres _ _ _ _ lc _ _ Hr) in Hv.
+      exact (lit_good parse_f64 S _ _ _ (ccls_n S f) _ _ Harc Hinl HC HD HI lc true t _ v (or_introl eq_refl) Hv Hp).
   Qed.
 End Fuel.
